@@ -21,10 +21,10 @@ def raw(items):
     out = []
     cur = bytearray()
     for it in items:
-        if it is None:
+        if it is None or isinstance(it, tuple):
             if cur:
                 out.append(cur.hex()); cur = bytearray()
-            out.append('--')
+            out.append('--' if it is None else f'--{it[1]}')          # ('gap', n): n consecutive polls without data
         else:
             cur.append(it)
             if len(cur) >= 64:
